@@ -19,8 +19,11 @@ package resample
 //@   loop 2: invariant len(ls) >= old(len(ls)) && (fresh(ls) || (ls.ref == old(ls.ref) && ls.off == old(ls.off) && cap(ls) == old(cap(ls))))
 //@   loop 2: decreases totalPoints - len(ls)
 
-// one distance per segment, dists[k] == df(ls[k], ls[k+1]) (that the total is their left fold needs a
-// frame induction over the array being filled, which the generator does not do: not stated)
+// one distance per segment, dists[k] == df(ls[k], ls[k+1]), and the total is their left fold from 0
+// (`specfold`: the fold depends on memory only through the first n distances, so it survives the
+// store that fills the next slot)
+//@ spec sumd(d []float64, n int) float64 = ite(n <= 0, 0.0, sumd(d, n-1) + d[n-1])
+//@ specfold sumd d n
 //@ func precomputeDistances(ls, df) (total, dists)
 //@   floats abstract
 //@   purefuncs
@@ -28,6 +31,8 @@ package resample
 //@   modifies nothing
 //@   ensures len(dists) == len(ls) - 1 && fresh(dists)
 //@   ensures forall k :: 0 <= k && k < len(dists) ==> same(dists[k], df(ls[k], ls[k+1]))
+//@   ensures same(total, sumd(dists, len(dists)))
+//@   loop 1: invariant same(total, sumd(dists, i))
 //@   loop 1: invariant 0 <= i && i <= len(ls) - 1 && len(dists) == len(ls) - 1 && fresh(dists) && dists != nil
 //@   loop 1: invariant forall k :: 0 <= k && k < i ==> same(dists[k], df(ls[k], ls[k+1]))
 
